@@ -912,19 +912,21 @@ class CommandPipeline:
                 self._return_terminal()
             return
 
-        # Default: defer chain operands to the BoolOp wrapper.
-        if getattr(spec, "in_boolop", False):
-            return
-
-        # Standalone — only raise here if the user explicitly opted in
-        # to per-command raising.  Otherwise let the AST wrapper around
-        # the statement do it via $XONSH_SUBPROC_RAISE_ERROR.
+        # The user explicitly opted in to per-command raising: every
+        # failing command is fatal "regardless of chain context", so this
+        # comes before the chain-operand deferral below.
         if XSH.env.get("XONSH_SUBPROC_CMD_RAISE_ERROR"):
             try:
                 raise subprocess.CalledProcessError(rtn, spec.args, output=self.output)
             finally:
                 # needed to get a working terminal in interactive mode
                 self._return_terminal()
+
+        # Default: defer chain operands to the BoolOp wrapper, and let the
+        # AST wrapper around the statement raise for standalone commands
+        # via $XONSH_SUBPROC_RAISE_ERROR.
+        if getattr(spec, "in_boolop", False):
+            return
 
     #
     # Properties
